@@ -200,6 +200,15 @@ func (c *twistPoint) Double(a *twistPoint, pool *bnPool) {
 }
 
 func (c *twistPoint) Mul(a *twistPoint, scalar *big.Int, pool *bnPool) *twistPoint {
+	if scalar.Sign() < 0 {
+		// Bit reports two's-complement bits for negative values: use (-k)a = -(ka).
+		t := newTwistPoint(pool)
+		t.Mul(a, new(big.Int).Neg(scalar), pool)
+		c.Negative(t, pool)
+		t.Put(pool)
+		return c
+	}
+
 	sum := newTwistPoint(pool)
 	sum.SetInfinity()
 	t := newTwistPoint(pool)
@@ -254,5 +263,5 @@ func (c *twistPoint) Negative(a *twistPoint, pool *bnPool) {
 	c.y.SetZero()
 	c.y.Sub(c.y, a.y)
 	c.z.Set(a.z)
-	c.t.SetZero()
+	c.t.Set(a.t)
 }
